@@ -84,14 +84,16 @@ Proof.
   set (h := N.land (lenN prefix) 3).
   assert (Hh : h = lenN prefix mod 4) by apply land3.
   assert (Hh4 : h < 4) by (rewrite Hh; apply N.mod_lt; lia).
-  unfold m at 2 3 4. rewrite rot_spec by assumption. fold m.
+  assert (E : (if 0 <? h then rotr32 (u32_from_le m) (8 * h) else u32_from_le m) = u32_from_le (rot h m))
+    by (apply rot_spec; assumption).
+  rewrite !E.
   assert (Hrot : rot h m = [mask_at m h; mask_at m (h + 1); mask_at m (h + 2); mask_at m (h + 3)]) by reflexivity.
-  rewrite Hrot at 2. rewrite u32_le_roundtrip by (apply mask_at_ok; assumption). rewrite <- Hrot.
-  rewrite Hrot at 1.
+  rewrite Hrot.
+  rewrite u32_le_roundtrip by (apply mask_at_ok; assumption).
   rewrite xor_words_fallback; try (apply mask_at_ok; assumption); try assumption;
     [|unfold words, rest; apply bytes_ok_firstn, bytes_ok_skipn; assumption].
   rewrite <- Hrot. rewrite !fallback_at_rot.
-  rewrite Hbuf at 4. rewrite !fallback_at_app. f_equal. f_equal.
+  rewrite Hbuf at 1. rewrite !fallback_at_app. f_equal. f_equal.
   - apply fallback_at_mod. rewrite Hh. rewrite N.add_0_r, N.add_0_l. apply N.mod_mod. lia.
   - apply fallback_at_mod. rewrite Hh, N.add_0_r, N.add_0_l.
     unfold lenN at 3. rewrite Hw. rewrite Nat2N.inj_mul. change (N.of_nat 4) with 4.
